@@ -691,7 +691,21 @@ class DateTime(datetime.datetime, Date):
                 microseconds=delta.microseconds,
             )
         elif isinstance(delta, pendulum.Duration):
-            return self.add(**delta._signature)  # type: ignore[attr-defined]
+            signature = getattr(delta, "_signature", None)
+            if signature is None:
+                # AbsoluteDuration: only its (absolute) components are known
+                signature = {
+                    "years": delta.years,
+                    "months": delta.months,
+                    "weeks": delta.weeks,
+                    "days": delta.remaining_days,
+                    "hours": delta.hours,
+                    "minutes": delta.minutes,
+                    "seconds": delta.remaining_seconds,
+                    "microseconds": delta.microseconds,
+                }
+
+            return self.add(**signature)
 
         return self.add(seconds=delta.total_seconds())
 
